@@ -667,6 +667,12 @@ func (x *Exec) callFunction(fn *ssa.Function, args []Value, bind []Value) (ret V
 		if r, ok := x.tryNative(name, fn, args); ok {
 			return r
 		}
+		// math/big: the assembly kernels have pure Go twins (arith.go: addVV_g, shlVU_g, ...)
+		if fn.Pkg != nil && fn.Pkg.Pkg.Path() == "math/big" {
+			if g := fn.Pkg.Func(fn.Name() + "_g"); g != nil && g.Blocks != nil {
+				return x.callFunction(g, args, nil)
+			}
+		}
 		panic(unsupported("no body: " + name))
 	}
 	if x.eng.denied(fn) {
